@@ -1,0 +1,16 @@
+//go:build verif
+
+// Contracts for package rbc, read by /verif's govc (comment-only; no declarations).
+
+package rbc
+
+//@ type Receiver
+//@   invariant [config]  this.Logger != nil && this.ForwardToBackend != nil && this.BroadcastAck != nil
+//@   invariant [maps]    (this.reception == nil) == (this.receivedRoundFromSender == nil)
+//@   invariant [entries] forall x msgReception :: x in this.reception ==> this.reception[x] != nil && this.reception[x].idSet != nil
+//@
+//@ func (*Receiver).Receive
+//@   props C10 C02 C03 C04
+//@   unit
+//@   requires m != nil
+//@   requires from != r.SelfID
